@@ -849,8 +849,17 @@ impl<'a> Sess<'a> {
                 }
                 Cb::Broadcast(function, action) => {
                     if let Some(mode) = self.sent_broadcasts.pop_front() {
-                        self.broadcast_pending = Some(mode);
-                        self.broadcast_uncertain = false;
+                        // "... or, for confirm-mandatory broadcasts, confirmed": a confirm-mandatory broadcast that has
+                        // not been confirmed keeps its claim when a broadcast asking for less arrives; the newcomer
+                        // still has to be reported by a response sent from now on
+                        let keep_mandatory = self.broadcast_pending == Some(1) && mode != 1;
+                        if keep_mandatory {
+                            // (if it is uncertain whether the mandatory one was confirmed, it stays uncertain)
+                            label(&mut self.f, "weaker_broadcast_while_mandatory_pending");
+                        } else {
+                            self.broadcast_pending = Some(mode);
+                            self.broadcast_uncertain = false;
+                        }
                         self.broadcast_reported = false;
                     }
                     if function == "DisableUnsolicited" && action == "Processed" {
